@@ -118,15 +118,17 @@ def check_stream(case, ctx):
         copier=lambda m: m.clone(),
         key=lambda m: (m.state, m.counter, m.seen_exceed, m.seen_gap_after_exceed, m.interrupted_resumed, m.ndrift),
     )
+    as_lists = case.get("as_lists", False)
     for i, row in enumerate(items):
         X = np.array([row], dtype=float)
+        Xin = [[int(v) if float(v).is_integer() else float(v) for v in row]] if as_lists else X  # same values as a plain list
         np.random.seed(base + i)
         decoy.step(X.copy())
         np.random.seed(base + i + 7919)
         decoy_seed.step(X.copy())
         with sut(detector="KdqTreeStreaming"):
             np.random.seed(base + i)
-            det.update(X)
+            det.update(Xin)
             obs = det.drift_state
 
         def stepfn(m, ch):
@@ -219,7 +221,12 @@ def strat_stream(tier):
             items = [[((0 if i < shift_at else 6) * 16 + k[j]) / 16 for j in range(d)] for i, k in enumerate(ks)]
         else:
             items = draw(burst_stream(d, w))
-        return {"params": p, "items": items, "seed_base": draw(vs.seed_base), "plot_every": draw(st.sampled_from([3, 7]))}
+        as_lists = draw(st.integers(0, 3)) == 0
+        if as_lists:
+            # plain python lists; the first rows of the stream hold integral values (python ints), later ones fractions
+            k = draw(st.integers(1, 3))
+            items = [[float(round(v)) for v in r] if i < k else r for i, r in enumerate(items)]
+        return {"params": p, "items": items, "seed_base": draw(vs.seed_base), "plot_every": draw(st.sampled_from([3, 7])), "as_lists": as_lists}
 
     return s()
 
